@@ -469,7 +469,7 @@ MUTANTS = [
     Mutant("outdate-any-state", "workflow.py", in_function("Workflow.mark_file_outdated", lambda s: s.replace("        if state == FileState.BUILT:\n", "        if state != FileState.OUTDATED:\n", 1).replace("        elif state != FileState.OUTDATED:\n            raise ConsistencyError(f\"Cannot make file outdated when its state is {state.name}\")\n", "") if "elif state != FileState.OUTDATED" in s else None), ("R-C09-5",)),
     Mutant("succeed-without-hash", "step.py", in_function("Step.mark_completed", replace_once("            self.set_hash(new_hash)\n", "")), ("R-C09-5",)),
     Mutant("failed-keeps-hash", "step.py", in_function("Step.mark_completed", replace_once("            # An unsuccessful step is not skippable, so we're removing its hash.\n            self.delete_hash()\n", "")), ("R-C09-5",)),
-    Mutant("recycle-keeps-hashless-succeeded", "step.py", in_function("Step.after_recycle", replace_once("        if state == StepState.FAILED or (state == StepState.SUCCEEDED and self.get_hash() is None):", "        if state == StepState.FAILED:")), ("R-C09-5",)),
+    Mutant("recycle-keeps-hashless-succeeded", "step.py", in_function("Step.after_recycle", replace_once("        if state == StepState.FAILED or (\n            state == StepState.SUCCEEDED and (self.get_hash() is None or hashed_args_changed)\n        ):", "        if state == StepState.FAILED:")), ("R-C09-5",)),
     Mutant("lost-product-no-chain", "step.py", in_function("Step.after_lost_product", replace_once("        if isinstance(creator, Step) and creator_detached:\n            creator.after_lost_product()\n", "")), ("R-C09-5",)),
     Mutant("interrupted-running-to-pending", "startup.py", replace_once("(StepState.FAILED.value, StepState.RUNNING.value),", "(StepState.PENDING.value, StepState.RUNNING.value),"), ("R-C09-5",)),
     Mutant("drop-transition-row", "workflow.py", replace_once('    (HashUpdateCause.EXTERNAL, FileState.OUTDATED, False): (FileState.PLANNED, "deleted"),\n', ""), ("R-C09-6",)),
